@@ -6,6 +6,8 @@
 (*   Mode "idx"  : index sequences read from cases.ndjson  ({c, q})            *)
 (*   Mode "file" : whole cases read from cases.ndjson  ({cfg, lines})          *)
 (*   Mode "gen"  : the $GENERATE matrix: ranges x offset x width x base        *)
+(*   Mode "tree" : include trees with directories and decoys: every top-level  *)
+(*                 file location x every sequence of <= N tree shapes          *)
 EXTENDS ZoneShapes, GenBase
 
 CONSTANTS Mode, N, Shard, NShards
@@ -46,22 +48,26 @@ GenVector(g) ==
       sample |-> IF bad \/ sts # {"ok"} THEN <<>>
                  ELSE LET sq == SetAsSeq(js) IN [i \in 1..Len(sq) |-> [j |-> sq[i], rec |-> Rec5(rs[sq[i]].rec)]]]
 
-\* given: a spelling supplied with the case (Mode "file"), replayed in addition to the harness' own
-ZoneVector(c, ls, given) ==
+\* given / givenfs: a spelling of the file (and of the include files: <<[name, text]>>) supplied with the case
+\* (Mode "file"), replayed in addition to the harness' own
+ZoneVector(c, ls, given, givenfs) ==
   [kind |-> "zone", cfg |-> c, lines |-> ls, outs |-> SetAsSeq(Denotations(c, ls)),
-   explicit |-> Explicit(c, ls), minimal |-> Minimal(c, ls), given |-> given]
+   explicit |-> Explicit(c, ls), minimal |-> Minimal(c, ls), given |-> given, givenfs |-> givenfs]
 
 Init ==
   /\ ZInit(CfgOf(0)) /\ pol = [io |-> FALSE, it |-> FALSE, go |-> FALSE, gt |-> FALSE]
   /\ \/ Mode = "seq" /\ \E c \in 0..(NCfg - 1), q \in UNION { [1..k -> 1..NShapes] : k \in 0..N } : v = <<c>> \o q /\ InShard(c, q)
      \/ Mode \in {"idx", "file"} /\ v \in 1..Len(Cases)
+     \/ Mode = "tree" /\ \E c \in 1..Len(TreeTop), q \in UNION { [1..k -> 1..Len(TreeShapes)] : k \in 1..N } : v = <<c>> \o q
      \/ Mode = "gen" /\ \E a \in 1..Len(Ranges), b \in 1..Len(Offs), c \in 1..Len(Widths), d \in 1..Len(Bases) :
                           v = <<a, b, c, d>> /\ ((a + b + c + d) % NShards = Shard)
 Next == UNCHANGED <<v, zvars>>
 
 Out ==
-  CASE Mode = "seq"  -> Emit(ZoneVector(CfgOf(v[1]), [i \in 1..(Len(v) - 1) |-> Shapes[v[i + 1]]], <<>>))
-    [] Mode = "idx"  -> Emit(ZoneVector(CfgOf(Cases[v].c), [i \in 1..Len(Cases[v].q) |-> Shapes[Cases[v].q[i]]], <<>>))
-    [] Mode = "file" -> Emit(ZoneVector(Cases[v].cfg, Cases[v].lines, IF "text" \in DOMAIN Cases[v] THEN Cases[v].text ELSE <<>>))
+  CASE Mode = "seq"  -> Emit(ZoneVector(CfgOf(v[1]), [i \in 1..(Len(v) - 1) |-> Shapes[v[i + 1]]], <<>>, <<>>))
+    [] Mode = "idx"  -> Emit(ZoneVector(CfgOf(Cases[v].c), [i \in 1..Len(Cases[v].q) |-> Shapes[Cases[v].q[i]]], <<>>, <<>>))
+    [] Mode = "file" -> Emit(ZoneVector(Cases[v].cfg, Cases[v].lines, IF "text" \in DOMAIN Cases[v] THEN Cases[v].text ELSE <<>>,
+                                        IF "fstext" \in DOMAIN Cases[v] THEN Cases[v].fstext ELSE <<>>))
+    [] Mode = "tree" -> Emit(ZoneVector(TreeCfg(v[1]), [i \in 1..(Len(v) - 1) |-> TreeShapes[v[i + 1]]], <<>>, <<>>))
     [] Mode = "gen"  -> Emit(GenVector(GenLineOf(v)))
 =============================================================================
